@@ -27,7 +27,7 @@ RULE = ('every call of rotation_matrix, enu2xyz, xyz2enu, vcv_cart2local, vcv_lo
         'shard enumerates 18 latitudes x 65 longitudes (poles, equator, signed zero, every 15 deg, neighbours of the '
         'cardinal meridians), every integer dof -5..200, and runs the repository\'s own tests of these functions under the '
         'monitors.  non-trivial = input inside the quantified domain (others are '
-        'counted, not judged); every returned object that holds an array is kept with a copy and compared again after later calls (results are values: `earlier-result-changed-by-later-call`).  distinct = (function, matrix/vector class, |lat| band, pole flag, cardinal-meridian flag)')
+        'counted, not judged); every returned object that holds an array is kept with a copy and compared again after later calls (results are values: `earlier-result-changed-by-later-call`).  distinct = (function, matrix/vector class, |lat| band, pole flag, cardinal-meridian flag) Matrix magnitudes 1e-14..1e12 and a class with sigmas differing by up to 1e6 inside one matrix.')
 ASSUMPTIONS = ['numpy.linalg.eigh / scipy.stats.t.ppf, validated each shard against 40-digit mpmath closed forms',
                'tolerances are backward-error sized: 1e-14 absolute for the rotation matrix, 1e-12 relative to |v| for vectors, '
                '1e-12 * trace (largest eigenvalue for the ellipse) in variance units for covariances; orientation compared '
